@@ -144,6 +144,9 @@ def make_history(base, cfg, r, n_commits=None, kind=None):
         # everything so far goes into the database file
         con.execute("PRAGMA wal_checkpoint(TRUNCATE)")
         h.snapshots.append(snapshot(con, tables))
+    if n_commits is None and kind in ("checkpoint_restart", "restart_after_rollback", "passive_checkpoint", "odd_rowids",
+                                      "wide_schema", "freelist_drain"):
+        n_commits = r.randint(3, 6)      # these shapes need a few commits to show at all
     n_commits = n_commits if n_commits is not None else r.randint(1, 6)
     wal_size = mx_frame(work)
     stale_generation = False
